@@ -65,6 +65,7 @@ package c12
 
 import (
 	"fmt"
+	"runtime/debug"
 	"strings"
 	"testing"
 
@@ -78,6 +79,9 @@ import (
 )
 
 func TestMain(m *testing.M) {
+	// every case reads a sheet (128 KiB guess buffer, 1000-entry sample maps): the
+	// live heap stays tiny, so let the collector run less often
+	debug.SetGCPercent(1000)
 	evid.Tests(
 		evid.Spec{Name: "TestReplay", Kind: "plain", QuickShards: 1, ThoroughShards: 1},
 		evid.Spec{Name: "TestPropDemux", Kind: "rapid", Quick: 16000, Thorough: 480000, QuickShards: 8, ThoroughShards: 16},
